@@ -702,6 +702,9 @@ class World:
         self.allowed = {}                        # id(class) -> (class, {owner: label})
         self.cur_owner = self.shared
         self.cur_variant = 0
+        # every LIST object of the caller that was handed to a factory which must take it in at once: attr.s(on_setattr=[..])
+        # and attr.ib(validator=[..] / on_setattr=[..]) of the shared counting attrs / these / make_class fields
+        self.kept_lists = []
         # harness-only: the KIND of every shared argument container (the model only counts their members)
         self.kinds = {k: v[0] for k, v in KINDS.items()}
         self.kinds.update(case.get("kinds") or {})
@@ -801,6 +804,8 @@ class World:
             kw["validator"] = mk_val(own, tok + ".0")
         elif nvalid > 1:
             kw["validator"] = [mk_val(own, f"{tok}.{i}") for i in range(nvalid)]
+            if own == self.shared:
+                self.kept_lists.append(("val", kw["validator"]))
         if convf:
             kw["converter"] = mk_conv(own, tok, var)
         pool = fx.get("pool") or {}
@@ -825,6 +830,8 @@ class World:
         h = hook_obj(hook, mk_hook(own, tok, var) if hook == "custom" else None)
         if h is not None:
             kw["on_setattr"] = h
+            if isinstance(h, list) and own == self.shared:
+                self.kept_lists.append(("hook", h))
         if kw_only:
             kw["kw_only"] = True
         if meta_n:
@@ -863,6 +870,10 @@ class World:
             h = hook_obj(a["onSetattr"], mk_hook(self.shared, "deco"))
             if isinstance(h, list):
                 self.hook_lists.append(h)
+                if a["api"] == "attrS":
+                    # (define()/frozen() re-call attrs() per class and so read the caller's list at every application
+                    # already on the unchanged source: that shape is not generated)
+                    self.kept_lists.append(("hook", h))
             kw["on_setattr"] = h
         if a.get("these"):
             kw["these"] = self.these
@@ -1094,6 +1105,14 @@ class World:
         self.last_owner = owner
         return env[name]
 
+    def mutate_kept(self):
+        """the caller goes on using ITS OWN list objects after a factory (attr.s / attr.ib) has taken them in: one more
+        member is appended to every such list.  No argument of any later definition: erased with the uses."""
+        for kind, lst in self.kept_lists:
+            n = len(lst)
+            lst.append(mk_list_hook(self.shared, 100 + n) if kind == "hook" else mk_val(self.shared, f"kept{n}"))
+        return "done"
+
     # --- steps
     def define(self, step):
         """run a definition step in the thread the scenario says; returns (Result json, class or None)"""
@@ -1181,6 +1200,8 @@ class World:
             elif isinstance(step, dict) and "caDefault" in step:
                 self.cas[step["caDefault"]["j"]].default(_DEFAULT_METH)
             elif isinstance(step, dict) and "use" in step:
+                if step["use"].get("mut"):
+                    return self.mutate_kept()
                 return self.use(step["use"]["k"])
             elif step in ENV_OPS:
                 attr.validators.set_disabled(step == "validatorsOff")
